@@ -1285,9 +1285,9 @@ def run(ctx: C.Ctx) -> None:
     warm_imports()
     if ctx.tier == "quick":
         # own, tighter budget than the framework's 150 s: the normal pass needs ~25 s of harness time;
-        # the failing-input search (boost 4) is cut off after 55 s so that even a run with a broken tie
+        # the failing-input search (boost 4) is cut off after 45 s so that even a run with a broken tie
         # stays around 90 s on an idle machine
-        ctx.deadline = min(ctx.deadline, time.time() + 55.0)
+        ctx.deadline = min(ctx.deadline, time.time() + 45.0)
     run_corpus(ctx)
     npools = ctx.n(2, 12)
     for pno in range(npools):
